@@ -443,6 +443,80 @@ fn search_spinodal_pure(label: &str, record: &str, eos: &Eos, cref: &State<Resid
     }
 }
 
+/// PhaseDiagram::spinodal of a pure model from 0.5 Tc: every stored pair consists of two spinodal states around the
+/// critical density inside the binodal, the last entry is the critical point, and every pair is the pair State::spinodal
+/// returns at the same temperature (the diagram is documented as the spinodal states on a temperature grid)
+fn search_phase_diagram_pure(label: &str, record: &str, eos: &Eos, cref: &State<ResidualModel>, npoints: usize, binodal: bool, sr: &mut Search) {
+    let tc = cref.temperature.to_reduced();
+    let rhoc = cref.density.to_reduced();
+    let moles = Moles::from_reduced(arr1(&[1.0]));
+    sr.count("phase_diagram_pure_calls");
+    let r = catch_unwind(AssertUnwindSafe(|| {
+        PhaseDiagram::spinodal(eos, &moles, Temperature::from_reduced(0.5 * tc), npoints, Some(Temperature::from_reduced(tc)), SolverOptions::default())
+    }));
+    let Ok(Ok(dia)) = r else {
+        sr.count("phase_diagram_pure_failed");
+        return;
+    };
+    let k = dia.states.len();
+    for (i, st) in dia.states.iter().enumerate() {
+        let (sv, sl) = (st.vapor(), st.liquid());
+        let t = sv.temperature.to_reduced();
+        let (qv, cv) = cond1(sv);
+        let (ql, _) = cond1(sl);
+        let (rv, rl) = (sv.density.to_reduced(), sl.density.to_reduced());
+        sr.count("phase_diagram_pure_states");
+        sr.worst("phase_diagram_pure_worst_q", qv);
+        sr.worst("phase_diagram_pure_worst_q", ql);
+        let key = json!({"collection": label, "record": record, "call": format!("PhaseDiagram::spinodal(min_temperature = 0.5 Tc, npoints = {npoints})"), "point": i});
+        let mut detail = json!({"T": t, "T/Tc": t / tc, "Tc": tc, "rho_c": rhoc, "rho_vapor": rv, "rho_liquid": rl, "q_vapor": qv, "q_liquid": ql});
+        if !(qv.abs() <= COND_TOL && ql.abs() <= COND_TOL) {
+            sr.fail("phase_diagram_spinodal_eigenvalue", key, detail);
+            continue;
+        }
+        if i + 1 == k {
+            // the diagram ends with its own critical point (physical: dp/dV = d2p/dV2 = 0 at positive pressure)
+            if !(cv.abs() <= COND_TOL && sv.pressure(Contributions::Total).to_reduced() > 0.0) {
+                sr.fail("phase_diagram_spinodal_last_point_not_critical", key, detail);
+            }
+            continue;
+        }
+        if !(rv < rhoc && rhoc < rl) {
+            sr.fail("phase_diagram_spinodal_bracket", key, detail);
+            continue;
+        }
+        // the same temperature through State::spinodal
+        let direct = catch_unwind(AssertUnwindSafe(|| State::spinodal(eos, sv.temperature, None, SolverOptions::default())));
+        match direct {
+            Ok(Ok([dv, dl])) => {
+                let (a, b) = (dv.density.to_reduced(), dl.density.to_reduced());
+                detail["state_spinodal_rho"] = json!([a, b]);
+                if !((a - rv).abs() <= 1e-8 * a && (b - rl).abs() <= 1e-8 * b) {
+                    sr.fail("phase_diagram_spinodal_differs_from_state_spinodal", key, detail);
+                    continue;
+                }
+            }
+            _ => {
+                detail["state_spinodal_rho"] = json!("error");
+                sr.fail("phase_diagram_spinodal_differs_from_state_spinodal", key, detail);
+                continue;
+            }
+        }
+        if binodal {
+            let vle = catch_unwind(AssertUnwindSafe(|| PhaseEquilibrium::pure(eos, sv.temperature, None, SolverOptions::default())));
+            if let Ok(Ok(vle)) = vle {
+                let (bv, bl) = (vle.vapor().density.to_reduced(), vle.liquid().density.to_reduced());
+                detail["rho_sat_vapor"] = json!(bv);
+                detail["rho_sat_liquid"] = json!(bl);
+                sr.count("phase_diagram_pure_binodal_checked");
+                if bl > bv * (1.0 + 1e-6) && !(bv <= rv * (1.0 + 1e-9) && rl <= bl * (1.0 + 1e-9)) {
+                    sr.fail("phase_diagram_spinodal_inside_binodal", key, detail);
+                }
+            }
+        }
+    }
+}
+
 fn search_binary(name: &str, eos: &Eos, tier_full: bool, rng: &mut Rng, sr: &mut Search) {
     // pure critical temperatures bracket the temperatures of the (T)-variant
     let pure: Vec<Option<State<ResidualModel>>> =
@@ -606,7 +680,7 @@ fn search_binary(name: &str, eos: &Eos, tier_full: bool, rng: &mut Rng, sr: &mut
         }
         sr.count("phase_diagram_spinodal_calls");
         let r = catch_unwind(AssertUnwindSafe(|| {
-            PhaseDiagram::spinodal(eos, &moles, Temperature::from_reduced(0.6 * tc), 6, Some(Temperature::from_reduced(tc)), SolverOptions::default())
+            PhaseDiagram::spinodal(eos, &moles, Temperature::from_reduced(0.5 * tc), 6, Some(Temperature::from_reduced(tc)), SolverOptions::default())
         }));
         if let Ok(Ok(dia)) = r {
             let k = dia.states.len();
@@ -628,6 +702,18 @@ fn search_binary(name: &str, eos: &Eos, tier_full: bool, rng: &mut Rng, sr: &mut
                     sr.fail("phase_diagram_spinodal_last_point_not_critical", key, detail);
                 } else if i + 1 < k && !(sv.density.to_reduced() < rhoc && rhoc < sl.density.to_reduced()) {
                     sr.fail("phase_diagram_spinodal_bracket", key, detail);
+                } else if i + 1 < k {
+                    let direct = catch_unwind(AssertUnwindSafe(|| State::spinodal(eos, sv.temperature, Some(&moles), SolverOptions::default())));
+                    let same = match direct {
+                        Ok(Ok([dv, dl])) => {
+                            let (a, b) = (dv.density.to_reduced(), dl.density.to_reduced());
+                            (a - sv.density.to_reduced()).abs() <= 1e-8 * a && (b - sl.density.to_reduced()).abs() <= 1e-8 * b
+                        }
+                        _ => false,
+                    };
+                    if !same {
+                        sr.fail("phase_diagram_spinodal_differs_from_state_spinodal", key, detail);
+                    }
                 }
             }
         } else {
@@ -690,6 +776,112 @@ fn search_pr(k: usize, rng: &mut Rng, sr: &mut Search, g: &mut Goals) {
     }
 }
 
+/// Peng-Robinson mixtures with non-zero binary interaction parameters: the critical point of every one-component
+/// subset (State::critical_point_pure and eos.subset(&[i])) is the (Tc, pc) of that component's record
+fn search_pr_mixture(k: usize, rng: &mut Rng, sr: &mut Search, g: &mut Goals) {
+    for _ in 0..k {
+        let n = 2 + rng.below(2);
+        let tbase = rng.range(150.0, 600.0);
+        let tcs: Vec<f64> = (0..n).map(|_| tbase * rng.range(0.7, 1.4)).collect();
+        let pcs: Vec<f64> = (0..n).map(|_| rng.log_range(5e5, 2e7)).collect();
+        let oms: Vec<f64> = (0..n).map(|_| rng.range(-0.1, 1.0)).collect();
+        let mut kij = ndarray::Array2::<f64>::zeros((n, n));
+        for i in 0..n {
+            for j in 0..i {
+                let mut v = rng.range(-0.15, 0.15);
+                if v.abs() < 0.01 {
+                    v = 0.05;
+                }
+                kij[[i, j]] = v;
+                kij[[j, i]] = v;
+            }
+        }
+        let recs: Vec<_> = (0..n)
+            .map(|i| PureRecord::new(Identifier::default(), 50.0, PengRobinsonRecord::new(tcs[i], pcs[i], oms[i])))
+            .collect();
+        let Ok(par) = PengRobinsonParameters::from_records(recs, Some(kij.clone())) else { continue };
+        let eos: Eos = Arc::new(ResidualModel::PengRobinson(PengRobinson::new(Arc::new(par))));
+        let kvec: Vec<f64> = kij.iter().cloned().collect();
+        let mut check = |s: &State<ResidualModel>, i: usize, call: &str, sr: &mut Search, g: &mut Goals| {
+            let t = s.temperature.to_reduced();
+            let p = s.pressure(Contributions::Total).convert_into(quantity::PASCAL);
+            let (q, c) = cond1(s);
+            sr.count("pr_mixture_subset_returned");
+            sr.worst("pr_mixture_worst_rel_T", t / tcs[i] - 1.0);
+            sr.worst("pr_mixture_worst_rel_p", p / pcs[i] - 1.0);
+            let key = json!({"tc": tcs, "pc": pcs, "acentric_factor": oms, "k_ij": kvec, "component": i, "call": call});
+            let detail = json!({"T": t, "p_Pa": p, "rel_T": t / tcs[i] - 1.0, "rel_p": p / pcs[i] - 1.0, "q": q, "c": c});
+            if !(q.abs() <= COND_TOL && c.abs() <= COND_TOL) {
+                sr.fail("pr_critical_conditions", key, detail);
+                return;
+            }
+            if !((t / tcs[i] - 1.0).abs() <= PR_RTOL && (p / pcs[i] - 1.0).abs() <= PR_RTOL) {
+                sr.fail("pr_subset_tc_pc_not_recovered", key, detail);
+                return;
+            }
+            let kappa = 0.37464 + (1.54226 - 0.26992 * oms[i]) * oms[i];
+            g.push(
+                &format!(
+                    "Rabs (pr_Tr 0.45724 0.07780 {} * {} - {}) <= {:e} /\\ Rabs (pr_pr 0.45724 0.07780 {} * {} - {}) <= {:e}",
+                    dy(kappa), dy(tcs[i]), dy(t), 1e-7 * tcs[i], dy(kappa), dy(pcs[i]), dy(p), 1e-7 * pcs[i]
+                ),
+                "pr_interval",
+                json!({"kind": "pr_subset", "key": key, "detail": detail, "kappa": kappa}),
+            );
+        };
+        // one-component subsets, each from an initial temperature in [0.5, 1.6] Tc_i
+        for i in 0..n {
+            let fac = T0_GRID[rng.below(T0_GRID.len())];
+            sr.count("pr_mixture_subset_calls");
+            let sub: Eos = Arc::new(eos.subset(&[i]));
+            if let Ok(s) = crit_call(&sub, None, Some(fac * tcs[i])) {
+                check(&s, i, &format!("State::critical_point(eos.subset(&[{i}]), None, {} Tc)", fac), sr, g);
+            }
+        }
+        // State::critical_point_pure with one common initial temperature (within [0.5, 1.6] of every Tc_i)
+        let t0 = (tcs.iter().cloned().fold(f64::MAX, f64::min) * tcs.iter().cloned().fold(0.0, f64::max)).sqrt();
+        sr.count("pr_mixture_critical_point_pure_calls");
+        let r = catch_unwind(AssertUnwindSafe(|| {
+            State::critical_point_pure(&eos, Some(Temperature::from_reduced(t0)), SolverOptions::default())
+        }));
+        if let Ok(Ok(v)) = r {
+            for (i, s) in v.iter().enumerate() {
+                check(s, i, &format!("State::critical_point_pure(eos, {t0} K)[{i}]"), sr, g);
+            }
+        }
+    }
+}
+
+/// one-component subsets of a mixture model denote the pure models: State::critical_point_pure of the mixture returns
+/// the critical points of the separately built pure models
+fn search_subset_vs_pure(name: &str, mix: &Eos, pures: &[Eos], sr: &mut Search) {
+    sr.count("critical_point_pure_calls");
+    let r = catch_unwind(AssertUnwindSafe(|| State::critical_point_pure(mix, None, SolverOptions::default())));
+    let Ok(Ok(v)) = r else {
+        sr.count("critical_point_pure_not_converged");
+        return;
+    };
+    for (i, s) in v.iter().enumerate() {
+        let (q, c) = cond1(s);
+        let key = json!({"config": name, "call": "State::critical_point_pure(eos, None)", "component": i});
+        let mut detail = json!({"T": s.temperature.to_reduced(), "rho": s.density.to_reduced(), "p_reduced": s.pressure(Contributions::Total).to_reduced(), "q": q, "c": c});
+        if !(q.abs() <= COND_TOL && c.abs() <= COND_TOL && s.pressure(Contributions::Total).to_reduced() > 0.0) {
+            sr.fail("pure_critical_conditions", key, detail);
+            continue;
+        }
+        let Some(pure) = pures.get(i) else { continue };
+        let Ok(r) = crit_call(pure, None, None) else { continue };
+        sr.count("critical_point_pure_compared");
+        detail["pure_model_T"] = json!(r.temperature.to_reduced());
+        detail["pure_model_rho"] = json!(r.density.to_reduced());
+        let dt = s.temperature.to_reduced() / r.temperature.to_reduced() - 1.0;
+        let dr = s.density.to_reduced() / r.density.to_reduced() - 1.0;
+        sr.worst("critical_point_pure_worst_rel_dev", dt.abs().max(dr.abs()));
+        if !(dt.abs() <= 1e-6 && dr.abs() <= 1e-5) {
+            sr.fail("critical_point_pure_differs_from_pure_model", key, detail);
+        }
+    }
+}
 
 // ------------------------------------------------------------------------------------------------
 // D. acceptance logs: the solvers run with Verbosity::Iter; the check reads the tables from the harness log and
@@ -810,6 +1002,22 @@ fn main() {
                 }
             }
         }
+        // PhaseDiagram::spinodal from 0.5 Tc for every record of the collections (quick: gross2001; no random choice)
+        let dia_files: &[&str] = if full {
+            &["pcsaft/gross2001.json", "pcsaft/gross2002.json", "pcsaft/gross2005_fit.json", "pcsaft/gross2006.json", "pcsaft/loetgeringlin2018.json"]
+        } else {
+            &["pcsaft/gross2001.json"]
+        };
+        for file in dia_files {
+            let recs: Vec<PureRecord<PcSaftRecord>> = load(file);
+            for (i, rec) in recs.iter().enumerate() {
+                let name = rec.identifier.name.clone().unwrap_or_else(|| format!("#{i}"));
+                let Ok(Ok(p)) = catch_unwind(AssertUnwindSafe(|| PcSaftParameters::new_pure(rec.clone()))) else { continue };
+                let eos: Eos = Arc::new(ResidualModel::PcSaft(PcSaft::new(Arc::new(p))));
+                let Some(cref) = reference_cp(&eos, None) else { continue };
+                search_phase_diagram_pure(file, &name, &eos, &cref, if full { 11 } else { 6 }, full, &mut sr);
+            }
+        }
         {
             let file = "saftvrmie/lafitte2013.json";
             let recs: Vec<PureRecord<SaftVRMieRecord>> = load(file);
@@ -821,6 +1029,7 @@ fn main() {
                 if let Some(cref) = search_pure(file, &name, &eos, &facs, &mut sr) {
                     let fr = if full { fracs(&mut rng) } else { vec![rng.range(0.5, 0.99)] };
                     search_spinodal_pure(file, &name, &eos, &cref, &fr, &mut sr);
+                    search_phase_diagram_pure(file, &name, &eos, &cref, if full { 11 } else { 6 }, full, &mut sr);
                 }
             }
         }
@@ -830,6 +1039,7 @@ fn main() {
             if let Some(cref) = search_pure("configs", &c.name, &c.model, &facs, &mut sr) {
                 let fr = fracs(&mut rng);
                 search_spinodal_pure("configs", &c.name, &c.model, &cref, &fr, &mut sr);
+                search_phase_diagram_pure("configs", &c.name, &c.model, &cref, 6, true, &mut sr);
             }
         }
         // binary mixtures
@@ -845,7 +1055,17 @@ fn main() {
         };
         for (a, b) in pairs {
             let p = configs::pcsaft_params(&[a, b], "gross2001.json", None);
+            // one-component subsets of the mixture with a binary interaction parameter vs the separately built pure models
+            let pk: Eos = Arc::new(ResidualModel::PcSaft(PcSaft::new(Arc::new(configs::with_kij(&p, 0.04)))));
+            let pures: Vec<Eos> = [a, b]
+                .iter()
+                .map(|c| Arc::new(ResidualModel::PcSaft(PcSaft::new(Arc::new(configs::pcsaft_params(&[c], "gross2001.json", None))))) as Eos)
+                .collect();
+            search_subset_vs_pure(&format!("pcsaft_{a}_{b}_kij0.04"), &pk, &pures, &mut sr);
             bins.push((format!("pcsaft_{a}_{b}"), Arc::new(ResidualModel::PcSaft(PcSaft::new(Arc::new(p))))));
+        }
+        for (name, eos) in &bins {
+            search_subset_vs_pure(name, eos, &[], &mut sr);
         }
         for (name, eos) in &bins {
             search_binary(name, eos, full, &mut rng, &mut sr);
@@ -857,6 +1077,9 @@ fn main() {
         let mut g = Goals::new();
         search_pr(if full { 200 } else { 24 }, &mut rng, &mut sr, &mut g);
         files.push(("pr_triples.v".to_string(), g));
+        let mut g = Goals::new();
+        search_pr_mixture(if full { 80 } else { 10 }, &mut rng, &mut sr, &mut g);
+        files.push(("pr_mixture_subsets.v".to_string(), g));
     }
 
     // ---- D. acceptance logs (stdout)
